@@ -16,6 +16,10 @@ CHECKS = {
          "Every pair of a 45-value i64 boundary grid and a 30-value f64 grid for every scalar operator, plus seeded random operands, evaluated folded, through the host API, through an in-language call and as compound assignment, each compared with an independent i128 / IEEE oracle. Exploration: complete on the grids, sampled elsewhere.",
          "Trusts the harness oracle (i128 arithmetic, Rust f64 = IEEE-754, platform pow for float **) and that the grid covers the boundary classes listed in the evidence labels.",
          "DESIGN.md section 3, C08"),
+ "C09": ("exhaustive small-scope enumeration + proptest random sequences/bounds against a re-implementation of Python's slice.indices (reference model), folded and run-time routes",
+         "All arrays and strings (ASCII and 2/3/4-byte scalars) up to length 4 (quick) / 6 (thorough) x all indices and all (start, stop, step) triples in a range exceeding the length on both sides plus MIN/MAX, compared with Python slice semantics on i128; both the constant-folded and the run-time (host API call) routes; static type of the slice must admit the value.",
+         "Trusts the harness's re-implementation of slice.indices and that literal sequences evaluate to themselves.",
+         "DESIGN.md section 3, C09"),
 }
 PENDING = {}
 props = [json.loads(l) for l in open(os.path.join(ROOT, "properties.jsonl"))]
